@@ -116,10 +116,10 @@ pub fn __vec_is_one(v: &Vec<u64>) -> (r: bool)
     ensures r == (v@ =~= seq![1u64])
 { unimplemented!() }
 
-//@ assume axiom_vec_u64_len : Rust allocation limit (std: "Vec never allocates more than isize::MAX bytes"): a Vec<u64> holds at most isize::MAX / 8 elements
+//@ assume axiom_vec_u64_len : target x86_64: user-space virtual addresses have at most 57 bits (Rust additionally caps allocations at isize::MAX bytes), so a Vec<u64> has fewer than 2^54 elements; stated with slack as < 2^57 (= MAX_DIGITS of prelude/highbits.rs)
 #[verifier::external_body]
 pub proof fn axiom_vec_u64_len(v: &Vec<u64>)
-    ensures v@.len() <= 0x0fff_ffff_ffff_ffff
+    ensures v@.len() < 0x200_0000_0000_0000
 { }
 
 //@ assume std::i32/i64/i128::wrapping_neg : std documentation: two's-complement negation; MIN.wrapping_neg() == MIN
